@@ -122,14 +122,84 @@ def _worker(args):
     modname, spec, seed, tier, idx = args
     t0 = time.time()
     try:
+        import faulthandler
+
+        # a shard that is still running shortly before the watchdog fires dumps its stacks to stderr
+        faulthandler.dump_traceback_later(max(30.0, float(os.environ.get("VFW_SHARD_BUDGET", "900")) - 20.0), exit=False)
         mod = importlib.import_module(modname)
         acc = mod.run_shard(spec, seed, tier)
+        faulthandler.cancel_dump_traceback_later()
         d = acc.dump()
         d["wall"] = time.time() - t0
         d["idx"] = idx
         return d
     except BaseException:
         return {"idx": idx, "harness_error": traceback.format_exc(), "spec": spec}
+
+
+def _child(w, path):
+    r = _worker(w)
+    tmp = path + ".tmp"
+    with open(tmp, "w") as f:
+        json.dump(r, f, default=str)
+    os.replace(tmp, path)
+
+
+def _run_processes(work, jobs, budget, t0):
+    """one process per shard (fork), at most `jobs` at a time.  A worker that dies without a result
+    (e.g. a native crash inside a solver library) is retried once; a second death or the watchdog
+    makes the run inconclusive (exit 2), never a violation."""
+    ctx = mp.get_context("fork")
+    outdir = os.path.join(HOME, ".work", "shards", str(os.getpid()))
+    os.makedirs(outdir, exist_ok=True)
+    pending = list(work)
+    running = {}  # idx -> (proc, path, w, attempt)
+    results, errs = [], []
+    attempts = {}
+    while pending or running:
+        while pending and len(running) < jobs:
+            w = pending.pop(0)
+            idx = w[4]
+            path = os.path.join(outdir, f"{idx}.json")
+            if os.path.exists(path):
+                os.remove(path)
+            p = ctx.Process(target=_child, args=(w, path), daemon=False)
+            p.start()
+            attempts[idx] = attempts.get(idx, 0) + 1
+            running[idx] = (p, path, w)
+        time.sleep(0.05)
+        for idx in list(running):
+            p, path, w = running[idx]
+            if os.path.exists(path):
+                p.join(5)
+                with open(path) as f:
+                    results.append(json.load(f))
+                os.remove(path)
+                del running[idx]
+            elif not p.is_alive():
+                del running[idx]
+                if attempts[idx] < 2:
+                    pending.append(w)
+                else:
+                    errs.append(f"shard {idx} worker died twice without a result (exit code {p.exitcode}): inconclusive")
+        if time.time() - t0 > budget:
+            for idx, (p, path, w) in running.items():
+                errs.append(f"shard {idx} exceeded the watchdog ({budget}s): inconclusive")
+                p.terminate()
+            for idx, (p, path, w) in running.items():
+                p.join(10)
+                if p.is_alive():
+                    p.kill()
+            for w in pending:
+                errs.append(f"shard {w[4]} not started before the watchdog: inconclusive")
+            break
+    try:
+        import shutil
+
+        shutil.rmtree(outdir, ignore_errors=True)
+    except Exception:
+        pass
+    return results, errs
 
 
 def load_known():
@@ -231,23 +301,16 @@ def run_check(prop: str, tier: str, seed: int, replay_file: str | None = None, j
     jobs = jobs or int(os.environ.get("VERIF_JOBS", "16"))
     work = [(modname, spec, derive_seed(seed, prop, i), tier, i) for i, spec in enumerate(specs)]
     budget = float(os.environ.get("VERIF_WATCHDOG_S", getattr(mod, "WATCHDOG_S", {}).get(tier, 3600)))
+    if tier == "quick" and "VERIF_WATCHDOG_S" not in os.environ:
+        budget = min(budget, 900.0)
+    os.environ["VFW_SHARD_BUDGET"] = str(budget)
     results = []
     if jobs <= 1 or len(work) <= 1:
         for w in work:
             results.append(_worker(w))
     else:
-        ctx = mp.get_context("fork")
-        with ctx.Pool(min(jobs, len(work)), maxtasksperchild=1) as pool:
-            ars = [pool.apply_async(_worker, (w,)) for w in work]
-            for i, ar in enumerate(ars):
-                left = budget - (time.time() - t0)
-                try:
-                    results.append(ar.get(timeout=max(1.0, left)))
-                except mp.TimeoutError:
-                    harness_errors.append(f"shard {i} exceeded the watchdog ({budget}s): inconclusive")
-                except Exception:
-                    harness_errors.append(f"shard {i}: " + traceback.format_exc())
-            pool.terminate()
+        results, errs = _run_processes(work, jobs, budget, t0)
+        harness_errors.extend(errs)
 
     for r in sorted(results, key=lambda r: r["idx"]):
         if "harness_error" in r:
